@@ -227,7 +227,17 @@ fn compile_pattern_chain(
             name
         };
 
-        let edge_alias = rel_el.variable.clone();
+        // An anonymous relationship with an inline property map still needs a binding,
+        // otherwise its property predicates have nothing to refer to and are dropped.
+        let edge_alias = rel_el.variable.clone().or_else(|| {
+            if rel_el.properties.is_some() && rel_el.variable_length.is_none() {
+                let name = format!("_gen_{}", next_anon_id);
+                *next_anon_id += 1;
+                Some(name)
+            } else {
+                None
+            }
+        });
         let rel_types = rel_el.types.clone();
         let dst_labels = dst_node_el.labels.clone();
         let is_var_len = rel_el.variable_length.is_some();
